@@ -34,7 +34,7 @@ type EnfTally struct {
 }
 
 // EnforceCount is the number of enforcement scenarios of a tier.
-func EnforceCount(r *evid.Run) int { return r.Pick(14, 150) }
+func EnforceCount(r *evid.Run) int { return r.Pick(16, 150) }
 
 // EnforcementChild runs one scenario when this process is a scenario child
 // (and never returns in that case).
@@ -51,14 +51,15 @@ func EnforcementOnly() bool { return *enfOnly || *enfOne >= 0 }
 // reports into r. It does not call r.Finish.
 func EnforcementPart(r *evid.Run) EnfTally {
 	r.Set("enf_rule", "enforcement part (engine L2, one child process per scenario): the complete real ChainService against scripted wire peers reached through Config.Dialer as ConnectPeers (permanent, so the connection manager redials them every 300 ms). "+
-		"Three FIXED scenarios: 0 = a liar drops its connection after lying and answers the handshake of the redialled connection only once the client reports it banned (the ban lands mid-handshake); "+
-		"1 = a peer whose filter CHECKPOINT is false while its cfheaders are true; 2 = a filter-header liar is the only peer during the initial sync, honest peers are admitted afterwards. "+
-		"The others cycle through {services, liar-tip, liar-cp, bad-block, control, mixed, mixed-cp, liar-late, liar-batch}: chains of 100-400 blocks (at-tip filter-header path) or 1010-2200 with one block-header checkpoint at 1000 (checkpointed path), 1-3 honest peers plus, from the seed, peers without the CF / witness / both service bits, "+
+		"FIXED scenarios: 0 = a liar drops its connection after lying and answers the handshake of the redialled connection only once the client reports it banned (the ban lands mid-handshake); "+
+		"1 = a peer whose filter CHECKPOINT is false while its cfheaders are true; 2 = a filter-header liar is the only peer during the initial sync, honest peers are admitted afterwards; 3 = a liar about an unparseable script; "+
+		"4 = the only two peers announce two different false filter hashes for the same block (each serves the true filter, so each one's own two messages prove its announcement false), 5 = one such liar and a peer that announces the true hash and then answers no getcfilters/getdata: in both, two honest peers are admitted only once every peer of that first phase is banned (if that never happens they stay away and the liars-only phase is judged alone). "+
+		"The others cycle through {services, liar-tip, liar-cp, bad-block, control, mixed, mixed-cp, liar-late, liar-batch, only-liars-then-honest (2-3 peers about one seeded height: wrong-hash liars, an unserved liar, a mute peer; 1-3 late honest/slow peers)}: chains of 100-400 blocks (at-tip filter-header path) or 1010-2200 with one block-header checkpoint at 1000 (checkpointed path), 1-3 honest peers plus, from the seed, peers without the CF / witness / both service bits, "+
 		"provable filter-header liars (omit-script / wrong-hash / unserved at a height on the chain; also admitted late, so that only the false previous filter header shows), a consistent filter-checkpoint liar (provable lie below a checkpoint: false checkpoint and matching cfheaders), a batch liar (true checkpoints, false cfheaders, alone at first), "+
 		"an invalid-block server (requested header, transactions altered: value / dropped tx / witness flip; the scenario then issues concurrent GetBlock calls), and honest-class peers: stale, slow, merely disconnecting; random first-connected peer; in 3/4 of the scenarios no peer serves block headers before all had their chance to connect (steering). "+
 		"A peer already seen banned pushes: on any later connection on which the client lets it complete a handshake it at once announces an unknown block (inv). "+
 		"Observed: IsBanned polled every ~4 ms (first sighting stamped with the event-log sequence), per-address connection records (open point, open/closed, events per connection), the ban store reopened after Stop. "+
-		"Oracle: (a) missing-service peer whose version the client read => store record NoCompactFilters and IsBanned; (b) liar whose lie was sent while the client could see the conflict (an honest peer answered the same request / honest checkpoints were known / the false previous filter header met the client's own true tip / its own true checkpoints) and the committed filter tip passed the height => InvalidFilterHeader/-Checkpoint, already in place when the initial sync completed if the lie was told before; checkpoint-only liar not banned after 3 rounds of conflict resolution; bad-block server that promptly answered a getdata => InvalidBlock; "+
+		"Oracle: (a) missing-service peer whose version the client read => store record NoCompactFilters and IsBanned; (b) liar whose lie was sent while the client could see the conflict (an honest peer answered the same request / another peer, liar or not, answered the same request with a different hash for that block, being the first block the two answers differ about / honest checkpoints were known / the false previous filter header met the client's own true tip / its own true checkpoints) and the committed filter tip passed the height => InvalidFilterHeader/-Checkpoint, already in place when the initial sync completed if the lie was told before; at-tip liar not banned although the conflict was on the table in 3 or more rounds and the proof was served (the disputed block, or the liar's own filter not hashing to its announced hash); checkpoint-only liar not banned after 3 rounds of conflict resolution; bad-block server that promptly answered a getdata => InvalidBlock; "+
 		"(c) no honest/stale/slow/disconnecting peer banned unless the log shows it left a request unanswered/late or dropped its own connection in a session with conflicts (then inconclusive); "+
 		"(d) on connections the client dealt with after the ban was seen (opened later, or the peer's version sent later) the peer receives no request message at all, and no handshaken connection to a banned address is open after a 30 s watchdog (typical: ms); (e) an honest peer is still connected; IsBanned agrees with the reopened store. "+
 		"distinct = scenario shape (kind x peer-mix multiset x path x first peer / steering) and per-peer outcome shape (class[:lie] x path x ban reason x what happened to later connections); non-trivial = at least one ban observed (control: synced with all peers up)")
